@@ -525,6 +525,41 @@ pub fn parse_limit(input: &str) -> IResult<&str, usize> {
 // Unified recursive SPARQL parser
 // ---------------------------------------------------------------------------
 
+/// Maximum nesting of recursive SPARQL constructs (group graph patterns,
+/// sub-selects, parenthesised or negated FILTER expressions, quoted triples).
+/// The recursive-descent parser uses one native stack frame chain per level,
+/// so deeper input is rejected with a parse error instead of exhausting the
+/// call stack.
+const SPARQL_MAX_NESTING_DEPTH: usize = 128;
+
+thread_local! {
+    static SPARQL_NESTING_DEPTH: std::cell::Cell<usize> = const { std::cell::Cell::new(0) };
+}
+
+/// RAII counter for the current recursion depth of the unified parser.
+struct SparqlNestingGuard;
+
+impl SparqlNestingGuard {
+    fn enter(input: &str) -> Result<Self, nom::Err<nom::error::Error<&str>>> {
+        SPARQL_NESTING_DEPTH.with(|depth| {
+            if depth.get() >= SPARQL_MAX_NESTING_DEPTH {
+                return Err(nom::Err::Failure(nom::error::Error::new(
+                    input,
+                    nom::error::ErrorKind::TooLarge,
+                )));
+            }
+            depth.set(depth.get() + 1);
+            Ok(SparqlNestingGuard)
+        })
+    }
+}
+
+impl Drop for SparqlNestingGuard {
+    fn drop(&mut self) {
+        SPARQL_NESTING_DEPTH.with(|depth| depth.set(depth.get().saturating_sub(1)));
+    }
+}
+
 /// Removes SPARQL whitespace and `#` comments. This is intentionally separate
 /// from `multispace0`: comments are whitespace in SPARQL and must not leak into
 /// keyword or punctuation parsing.
@@ -974,6 +1009,7 @@ fn sparql_quoted_triple_parts(input: &str) -> IResult<&str, LexicalTriplePattern
     let Some(input) = input.strip_prefix("<<") else {
         return sparql_error(input, nom::error::ErrorKind::Tag);
     };
+    let _nesting = SparqlNestingGuard::enter(input)?;
     let (input, subject) = sparql_subject_term(input)?;
     let (input, predicate) = sparql_predicate_term(input)?;
     let (input, object) = sparql_object_term(input)?;
@@ -1080,6 +1116,7 @@ fn sparql_triples_statement(input: &str) -> IResult<&str, Vec<LexicalTriplePatte
 }
 
 fn sparql_filter_operand(input: &str) -> IResult<&str, ArithmeticExpression<'_>> {
+    let _nesting = SparqlNestingGuard::enter(input)?;
     let input = sparql_skip_ws(input);
     if let Some(after_open) = input.strip_prefix('(') {
         let (after_expression, expression) = sparql_filter_arithmetic(after_open)?;
@@ -1213,6 +1250,7 @@ fn sparql_filter_function(input: &str) -> IResult<&str, FilterExpression<'_>> {
 }
 
 fn sparql_filter_atom(input: &str) -> IResult<&str, FilterExpression<'_>> {
+    let _nesting = SparqlNestingGuard::enter(input)?;
     let input = sparql_skip_ws(input);
     if let Some(after_not) = input.strip_prefix('!') {
         if !after_not.starts_with('=') {
@@ -1430,6 +1468,7 @@ fn sparql_group_primary(input: &str) -> IResult<&str, GroupGraphPattern<'_>> {
 
 /// Parses a recursive group graph pattern containing BGP, GRAPH, and UNION.
 pub fn parse_group_graph_pattern(input: &str) -> IResult<&str, GroupGraphPattern<'_>> {
+    let _nesting = SparqlNestingGuard::enter(input)?;
     let (mut input, _) = sparql_char(input, '{')?;
     let mut joined = Vec::new();
     loop {
